@@ -419,6 +419,15 @@ func Finish(c *Ctx, res *Result, runErr error) int {
 		}
 		fmt.Printf("  key=%s : %s\n", v.Key, what)
 	}
+	if os.Getenv("VERIF_KEYS") != "" {
+		counts := map[string]int{}
+		for _, v := range res.Violations {
+			counts[v.Key]++
+		}
+		for k, n := range counts {
+			fmt.Printf("KEY %d x %s\n", n, k)
+		}
+	}
 	for i, d := range res.Drift {
 		if i < 10 {
 			fmt.Printf("MODEL-DRIFT property=%s %s\n", c.Prop, d)
